@@ -97,11 +97,11 @@ theorem acts_keep (cfg : Cfg) (rec : Rec) (hal : AlOK cfg rec) (hrec : KeepSpec 
         -- a failed dependency: environment restored, `alreadySetupProducts` as the attempt left it
         have fail : ∀ s1 : St, (rec true (depth + 1) j (.keep :: (t.map VroEnt.tag ++ vro)) n v x s).st? = some s1 →
             KeepPost s (if (true && !o) = true then
-                Res.raised ⟨s.env, s.aliases, s.unaliased, s1.already⟩
-              else acts rec cfg true depth noRec vro d rest ⟨s.env, s.aliases, s.unaliased, s1.already⟩) := by
+                Res.raised ⟨s.env, s.aliases, s.unaliased, s1.already, s1.cache⟩
+              else acts rec cfg true depth noRec vro d rest ⟨s.env, s.aliases, s.unaliased, s1.already, s1.cache⟩) := by
           intro s1 hr
-          have hA : ExtA s ⟨s.env, s.aliases, s.unaliased, s1.already⟩ := keepPost_extA s _ hpost s1 hr
-          have hm1 : Mirror ⟨s.env, s.aliases, s.unaliased, s1.already⟩ := by
+          have hA : ExtA s ⟨s.env, s.aliases, s.unaliased, s1.already, s1.cache⟩ := keepPost_extA s _ hpost s1 hr
+          have hm1 : Mirror ⟨s.env, s.aliases, s.unaliased, s1.already, s1.cache⟩ := by
             intro m w hw
             obtain ⟨d', r', hg, hv⟩ := hm m w hw
             exact ⟨d', r', by rw [hA m w hw]; exact hg, hv⟩
@@ -152,7 +152,7 @@ theorem record_keep (d : Decl) (r : Option VroEnt) (s : St) (hm : Mirror s) (hno
 theorem install_keep (cfg : Cfg) (rec : Rec) (hal : AlOK cfg rec) (hrec : KeepSpec cfg rec) (depth : Nat) (noRec : Bool)
     (vro : List VroEnt) (hk : VroEnt.keep ∈ vro) (d : Decl) (reason : Option VroEnt) (hc : Canon cfg.db d)
     (s : St) (ha : AlreadyOK cfg.db s.already) (hm : Mirror s)
-    (hsame : ∀ sd, setupProd cfg.db s.env d.name = some sd → sd.ver = d.ver ∧ depth > 0) :
+    (hsame : ∀ sd, setupProd cfg.db s.env d.name = some sd → sd.ver.1 = d.ver.1 ∧ depth > 0) :
     KeepPost s (install rec cfg depth noRec vro d reason s) := by
   unfold install
   cases hsp : setupProd cfg.db s.env d.name with
@@ -173,6 +173,17 @@ theorem install_keep (cfg : Cfg) (rec : Rec) (hal : AlOK cfg rec) (hrec : KeepSp
     simp only [hskip, if_true]
     exact ⟨fun _ _ _ => rfl, fun _ _ h => h, hm⟩
 
+theorem keepPost_congr (s0 s : St) (r : Res) (h1 : s0.env = s.env) (h2 : s0.already = s.already)
+    (h : KeepPost s0 r) : KeepPost s r := by
+  cases r with
+  | ok s' =>
+    obtain ⟨hA, hR, hm⟩ := h
+    exact ⟨fun m v hv => by rw [← h2]; exact hA m v (by rw [h1]; exact hv),
+           fun m v hv => hR m v (by rw [h1]; exact hv), hm⟩
+  | notFound s' => exact fun m v hv => by rw [← h2]; exact h m v (by rw [h1]; exact hv)
+  | raised s' => exact fun m v hv => by rw [← h2]; exact h m v (by rw [h1]; exact hv)
+  | fuel => trivial
+
 theorem setup_keepSpec (cfg : Cfg) : ∀ fuel, KeepSpec cfg (setup cfg fuel) := by
   intro fuel
   induction fuel with
@@ -186,15 +197,19 @@ theorem setup_keepSpec (cfg : Cfg) : ∀ fuel, KeepSpec cfg (setup cfg fuel) := 
     | found d reason =>
       simp only
       obtain ⟨hc, hname⟩ := resolve_spec cfg.db cfg.path cfg.keep s.already ha n ver vexpr (depth + 1) _ _ _ _ hres
-      have hreg : register cfg (depth + 1) d reason s = s := by simp [register]
+      obtain ⟨hc', hname'⟩ := pickDecl_spec cfg.db s.cache d _ hc hname
+      have hreg : ∀ s0 : St, register cfg (depth + 1) (pickDecl cfg.db s.cache d) reason s0 = s0 := by
+        intro s0; simp [register]
       rw [hreg]
-      refine install_keep cfg (setup cfg f) (setup_alOK cfg f) ih (depth + 1) noRec (.keep :: post) (by simp) d reason hc
-        s ha hm ?_
+      refine keepPost_congr (s.afterResolve cfg (depth + 1) (.keep :: post) n ver vexpr) s _ rfl rfl ?_
+      refine install_keep cfg (setup cfg f) (setup_alOK cfg f) ih (depth + 1) noRec (.keep :: post) (by simp)
+        (pickDecl cfg.db s.cache d) reason hc' _ ha hm ?_
       intro sd hsp
-      obtain ⟨_, _, hrec⟩ := setupProd_some cfg.db s.env d.name sd hsp
-      obtain ⟨d0, r0, hg, hv, _⟩ := mirror_setupProd cfg.db s ha hm d.name sd.ver hrec
-      rw [hname] at hg
+      have hsp' : setupProd cfg.db s.env (pickDecl cfg.db s.cache d).name = some sd := hsp
+      obtain ⟨_, _, hrec⟩ := setupProd_some cfg.db s.env _ sd hsp'
+      obtain ⟨d0, r0, hg, hv, _⟩ := mirror_setupProd cfg.db s ha hm _ sd.ver hrec
+      rw [hname'] at hg
       have := resolve_keep cfg.db cfg.path cfg.keep s.already n ver vexpr depth _ post d0 r0 hg d reason hres
-      rw [this]; exact ⟨hv.symm, by omega⟩
+      rw [pickDecl_ver, this, hv]; exact ⟨rfl, by omega⟩
 
 end EupsModel.Setup
